@@ -190,21 +190,25 @@ def count_kind(body, kind):
 
 
 def clause_import_pos(orig, out):
+    """-> None | (readable, shape)"""
     p = 0
     while p < len(orig) and orig[p][0] in ('doc', 'fu'):
         p += 1
     nimp = count_kind(out, 'bi')
     if p == len(orig):
-        return None if nimp == 0 else f'import added to a module holding only docstring/__future__ statements ({nimp})'
+        if nimp == 0:
+            return None
+        return f'import added to a module holding only docstring/__future__ statements ({nimp})', 'prefix-only-module'
     if nimp != 1:
-        return f'{nimp} imports added'
+        return f'{nimp} imports added', f'count-{nimp}'
     idx = [i for i, s in enumerate(out) if s[0] == 'bi']
     if not idx:
-        return 'import added below the top level'
+        return 'import added below the top level', 'nested'
     i = idx[0]
     if i != p:
-        what = 'before a docstring/__future__ statement' if i < p else 'after another statement'
-        return f'import at index {i}, expected {p} ({what})'
+        if i < p:
+            return f'import at index {i}, before a docstring/__future__ statement (expected index {p})', 'inside-prefix'
+        return f'import at index {i}, after another statement (expected index {p})', 'after-other-statement'
     return None
 
 
@@ -333,11 +337,17 @@ def first_diff(exp, got, path=''):
             if de != dg:
                 pe = [j for j, d in enumerate(de) if d[0] == 'bt']
                 pg = [j for j, d in enumerate(dg) if d[0] == 'bt']
+
+                def cat(pos, n):
+                    if len(pos) != 1:
+                        return f'{len(pos)}-added'
+                    return 'only' if n == 1 else 'first' if pos[0] == 0 else 'last' if pos[0] == n - 1 else 'inside'
+                shape = f'{cat(pe, len(de))}-vs-{cat(pg, len(dg))}'
+                if pe == pg and len(de) == len(dg):
+                    shape = 'added-decorator-fields'
                 return (f'{path}{kind_of(e)} {e[3] if k == "fn" else e[2]!r} line {e[1]}: decorators expected '
                         f'{[d[0] for d in de]} (added at {pe}), got {[d[0] for d in dg]} (added at {pg})',
-                        f'{path}{kind_of(e)}:decorators:{pe}/{len(de)}-vs-{pg}/{len(dg)}'
-                        + ('' if [d[1:] for d in de if d[0] == 'bt'] == [d[1:] for d in dg if d[0] == 'bt'] or len(pe) != len(pg)
-                           else ':bt-fields'))
+                        f'{path}{kind_of(e)}:decorators:{shape}')
             be, bg = (e[7], g[7]) if k == 'fn' else (e[5], g[5])
             if e[:7 if k == 'fn' else 5] != g[:7 if k == 'fn' else 5]:
                 return f'{path}{kind_of(e)} line {e[1]}: header differs', f'{path}{kind_of(e)}:header'
@@ -388,7 +398,7 @@ def judge_transform(source, kw, hookable, r, conf_sx, model):
         return (f'C05:erase:{d[1]}', f'removing the added nodes does not give the original module back: {d[0]}', {}), None
     e = clause_import_pos(orig, out)
     if e:
-        return (f'C05:import-pos:{e.split("(")[-1].rstrip(")") if "(" in e else e}', e, {}), None
+        return (f'C05:import-pos:{e[1]}', e[0], {}), None
     e = clause_lines(out)
     if e:
         return (f'C05:lines:{e[1]}', e[0], {}), None
@@ -761,10 +771,12 @@ def judge_behaviour(prog: dict, runs: dict, linemap: dict, model_differs: bool):
         out.append((key, f'offending statement at line {marks[m]["line"]} ({kind}) ran to completion under the hook '
                          f'without a violation'))
     if hook['exc'] is not None and not missed:
-        last = hook['reached'][-1] if hook['reached'] else None
-        if last is None or marks.get(last, {}).get('line') not in hook['tb']:
-            out.append(('C05:violation-line', f'violation {hook["exc"]} raised with traceback lines {hook["tb"]}; last '
-                                              f'offending statement reached is at line {marks.get(last, {}).get("line")}'))
+        # every offending statement reached so far raised (none is in `missed`); the violation that ended the import must
+        # come from one of the reached offending statements
+        lines = sorted({marks[m]['line'] for m in hook['reached'] if m in marks})
+        if not any(ln in hook['tb'] for ln in lines):
+            out.append(('C05:violation-line', f'violation {hook["exc"]} raised with traceback lines {hook["tb"]}; the '
+                                              f'offending statements reached are at lines {lines}'))
     # 4 nothing violates its hints -> hooked == unhooked
     if not hook['reached'] and not dup and fam in ('clean', 'impure', 'subscript', 'unsupported'):
         if hook['exc'] is not None:
@@ -1025,7 +1037,7 @@ def main(ck: Check) -> int:
     quick = ck.tier == 'quick'
     proof = ck.prove(MODULE, PROP_FILE)
     if quick:
-        ex = explore(ck, ck.seed, n_struct=1000, n_enum=2, n_prog=144)
+        ex = explore(ck, ck.seed, n_struct=1500, n_enum=2, n_prog=192)
     else:
         ex = explore(ck, ck.seed, n_struct=12000, n_enum=2, n_prog=1500, enum3=True)
     ck.decide(proof, ex, deep_search=lambda: explore(ck, ck.seed + 1, n_struct=6000, n_enum=2, n_prog=400, enum3=True))
